@@ -102,7 +102,32 @@ class FaultyFactory:
         return self.inner(*args, **kw)
 
 
-EXC = {'RuntimeError': RuntimeError, 'KeyError': KeyError, 'ValueError': ValueError, 'OSError': OSError,
+class FaultyRule:
+    """user verification rule with a bug: raises a NON-ValueError on some graphs produced during the run
+    (by size / by label / from the k-th verification on); the supplied initial graphs pass"""
+    __name__ = 'faulty_rule'
+
+    def __init__(self, spec, fired):
+        self.kind, self.arg, self.exc = spec['kind'], spec['arg'], spec.get('exc', 'KeyError')
+        self.calls = 0
+        self.fired = fired
+
+    def __call__(self, graph):
+        k = self.calls
+        self.calls += 1
+        if self.kind == 'max_nodes':
+            hit = len(graph.nodes) > self.arg
+        elif self.kind == 'no_label':
+            hit = any(str(n) == self.arg for n in graph.nodes)
+        else:
+            hit = k >= self.arg
+        if hit:
+            self.fired.append('rule')
+            raise EXC[self.exc]('injected failure in a verification rule')
+        return True
+
+
+EXC = {'TypeError': TypeError, 'RuntimeError': RuntimeError, 'KeyError': KeyError, 'ValueError': ValueError, 'OSError': OSError,
        'KeyboardInterrupt': KeyboardInterrupt}
 
 
@@ -214,6 +239,15 @@ def run_case(case):
                             opt.reproducer.mutation = opt.mutation
                 if loop and loop['via'] == 'factory':
                     gen.random_graph_factory = FaultyFactory(gen.random_graph_factory, loop['at'], fired)
+                if loop and loop['via'] == 'rule':
+                    from golem.core.dag.graph_verifier import GraphVerifier
+                    from golem.core.dag.verification_rules import DEFAULT_DAG_RULES
+                    spec = dict(loop)
+                    if spec['kind'] == 'max_nodes' and spec.get('arg') is None:     # the initial graphs pass
+                        spec['arg'] = max(len(g.nodes) for g in opt.initial_graphs)
+                    gen.verifier = GraphVerifier(list(DEFAULT_DAG_RULES) + [FaultyRule(spec, fired)], gen.adapter)
+                    if hasattr(gen.random_graph_factory, 'verifier'):
+                        gen.random_graph_factory.verifier = gen.verifier
                 verifier = gen.verifier
 
                 def cb(population, optimiser):
@@ -296,7 +330,7 @@ def run_case(case):
 LABELS = {'initial_assumptions': 'LInitial', 'extended_initial_assumptions': 'LExtended',
           'final_choices': 'LFinal', '': 'LNone', None: 'LNone'}
 FAULT_OUTCOME = {None: 'Value', 'raise': 'RaiseExc', 'none': 'NoneValue', 'nan': 'NaNValue', 'base': '(Escape (EInj 4))'}
-VIA_CODE = {'callback': 1, 'mutation': 2, 'factory': 3, 'objective_base': 4}
+VIA_CODE = {'callback': 1, 'mutation': 2, 'factory': 3, 'objective_base': 4, 'rule': 5}
 MISSING = 9999
 
 
@@ -324,6 +358,8 @@ def observed_exn(rec, loop):
         return '(EInj 3)'
     if tname == 'InjectedBase':
         return '(EInj 4)'
+    if 'injected failure in a verification rule' in msg:
+        return '(EInj 5)' if tname == (loop or {}).get('exc', 'KeyError') else 'EUnknown'
     if tname == 'EvaluationAttemptsError':
         return 'EAttempts'
     if rec.get('exc_is_oserror'):
@@ -402,6 +438,8 @@ class Builder:
             return '(ERaise (EInj 2))'
         if 'factory' in fired:
             return '(ERaise (EInj 3))'
+        if 'rule' in fired:
+            return '(ERaise (EInj 5))'
         if reached_final or self.rec['outcome'] == 'ok' or self.rec['outcome'] == 'raise:EvaluationAttemptsError':
             return 'EAttemptsErr'
         return '(ERaise EUnknown)'
@@ -462,7 +500,7 @@ class Builder:
             if first:
                 init_upd = self.dummy_upd()
             if trailing or (rec['outcome'] != 'ok' and not rec['fired']) or \
-                    (rec['outcome'] != 'ok' and set(rec['fired']) & {'mutation', 'factory'}):
+                    (rec['outcome'] != 'ok' and set(rec['fired']) & {'mutation', 'factory', 'rule'}):
                 escaped = bool(trailing) and trailing[-1]['out'] is None
                 res = '(EPop %s)' % nats([]) if escaped else self.evolve_failure()
                 steps.append(self.step(trailing, res, 'LNone', False, self.dummy_upd()))
@@ -563,7 +601,7 @@ class Builder:
         bad = sorted(set(bad) | set(invalid))      # an individual recorded with an invalid fitness
         exn = observed_exn(rec, self.loop)
         fired = None
-        for via in ('callback', 'mutation', 'factory', 'objective_base'):
+        for via in ('callback', 'mutation', 'factory', 'objective_base', 'rule'):
             if via in rec['fired']:
                 fired = '(EInj %d)' % VIA_CODE[via]
         if tamper == 'failed_in_generation' and gens:
@@ -803,6 +841,22 @@ def gen_cases(ctx):
                 if rep % 2:
                     cfg['objective']['faults'] = rng.choice(pats)[1]
                 cases.append({'group': 'loop:' + lp['via'], 'cfg': cfg, 'loop': lp})
+            i += 1
+    # a user verification rule that raises a NON-ValueError on graphs produced during the run (initial graphs pass)
+    rules = [{'kind': 'max_nodes', 'arg': None, 'exc': 'KeyError'}, {'kind': 'no_label', 'arg': 'c', 'exc': 'RuntimeError'},
+             {'kind': 'after', 'arg': 3, 'exc': 'TypeError'}, {'kind': 'after', 'arg': 12, 'exc': 'KeyError'},
+             {'kind': 'max_nodes', 'arg': None, 'exc': 'TypeError'}]
+    for rep in range(ctx.budget(1, 4)):
+        for j, opt in enumerate(kinds):
+            spec = rules[(j + rep) % len(rules)]
+            cfg = base_cfg(rng, opt, i)
+            if spec['kind'] == 'no_label':
+                cfg['initial'] = 'single'          # no node labelled 'c' at the start
+            if (j + rep) % 4 == 3 and opt in optrun.POPULATIONAL:
+                cfg['parallelization_mode'] = 'populational'
+            if rep % 2:
+                cfg['objective']['faults'] = rng.choice(pats)[1]
+            cases.append({'group': 'loop:rule', 'cfg': cfg, 'loop': dict(spec, via='rule')})
             i += 1
     # an error raised while the timer already reports its time limit (a timer __exit__ must not suppress it)
     for rep in range(ctx.budget(1, 3)):
